@@ -149,6 +149,14 @@ def evaluate(cfg, elems, want_ref=True, before=None):
             o.pre.append(bool(op.pre(a, b, opcheck.mp_scalars(elems[i]["s"]))))
         except Exception:  # noqa: BLE001
             o.pre.append(False)
+    poison = cfg.get("poison")
+    if poison:
+        # non-finite stored values (missing-data markers, results of singular earlier steps) in one operand
+        tgt = rows_a if poison["which"] == "a" or not db else rows_b
+        tgt[:] = [list(r) for r in tgt]
+        for (i_, j_, val_) in poison["cells"]:
+            tgt[i_ % len(tgt)][j_ % len(tgt[0])] = {"nan": math.nan, "inf": math.inf, "-inf": -math.inf}[val_]
+        tgt[:] = [tuple(r) for r in tgt]
     sp_a = cfg.get("spa", "generic")
     sp_b = cfg.get("spb", "generic")
     A = make_operand(ka, sa, rows_a, ma, sp_a, cfg.get("extra", False), cfg.get("alt", 0), dtype=cfg.get("dtype_a"))
